@@ -5,6 +5,8 @@
 (*                                                                         *)
 (* A property collection is a tree (record with field `op`):               *)
 (*   leaves   empty | pair | arr | slice | btree | hash   [op, kvs]        *)
+(*            ctxt (a ThreadLocalCtxt snapshot) | extent | spanctxt (the   *)
+(*            Extent / SpanCtxt views)                   [op, kvs]        *)
 (*            macro [op, ents]   (a props!/evt!/emit! call site)           *)
 (*            none               (Option::None)                            *)
 (*   unary    opt (Some) | ref | box | arc | erased | dedup | asmap [op,t] *)
@@ -31,7 +33,10 @@ CONSTANTS
                 \* order of the texts (TLC mangles non-ASCII strings kept in state
                 \* variables when the state queue goes to disk; indices do not suffer)
     IdOrder,    \* macro identifiers (unraw'd) in byte order
-    TreeSet,    \* the collections explored exhaustively
+    NModes,     \* exhaustive mode: number of seed sets
+    Seeds(_),   \* the seeds of a mode
+    Rights(_),  \* the right-hand sides joined to every seed of a mode
+    Extend(_),  \* whether the seeds of a mode are also wrapped in every unary node
     GrowLeaves(_),  \* leaves (with value base) for the growing mode (simulation)
     MaxGrow,    \* bound on the number of growth steps
     MacroGet,   \* "bsearch": lookup as found; "bsearch_scan": repaired lookup
@@ -43,7 +48,8 @@ VARIABLES
     tree,   \* the collection under consideration
     done,   \* exhaustive mode: the collection has been handed to the replay
     stk,    \* growing mode: collections below the current one
-    np      \* growing mode: number of steps so far (value bases derive from it)
+    np      \* growing mode: number of steps so far (value bases derive from it);
+            \* exhaustive mode: the mode of the seed
 
 vars == <<tree, done, stk, np>>
 
@@ -147,7 +153,7 @@ Segs(t) ==
     CASE t.op \in {"empty", "none"} -> <<>>
       [] t.op \in {"pair", "arr", "slice"} -> <<[ord |-> TRUE, kvs |-> t.kvs]>>
       [] t.op = "btree" -> <<[ord |-> TRUE, kvs |-> SortKVs(t.kvs)]>>
-      [] t.op = "hash" -> <<[ord |-> FALSE, kvs |-> SortKVs(t.kvs)]>>
+      [] t.op \in {"hash", "ctxt", "extent", "spanctxt"} -> <<[ord |-> FALSE, kvs |-> SortKVs(t.kvs)]>>
       [] t.op = "macro" -> <<[ord |-> FALSE, kvs |-> SortKVs(MacroPresent(t.ents))]>>
       [] t.op \in Transparent -> Segs(t.t)
       [] t.op = "and" -> Segs(t.l) \o Segs(t.r)
@@ -163,10 +169,11 @@ Get(t, k) == First(Flat(t), k)
 (* Level B: transcription of the implementations *)
 
 \* is_unique: overridden by (K,V), Empty, Dedup, BTreeMap, HashMap, macro props;
-\* forwarded by &P, AsMap, dyn ErasedProps; everything else keeps the default false
+\* the thread-local frame; forwarded by &P, AsMap, dyn ErasedProps; everything else
+\* (also Extent and SpanCtxt) keeps the default false
 RECURSIVE UniqB(_)
 UniqB(t) ==
-    CASE t.op \in {"empty", "pair", "btree", "hash", "macro", "dedup"} -> TRUE
+    CASE t.op \in {"empty", "pair", "btree", "hash", "ctxt", "macro", "dedup"} -> TRUE
       [] t.op \in {"ref", "asmap", "erased"} -> UniqB(t.t)
       [] OTHER -> FALSE
 
@@ -189,8 +196,8 @@ OrInsert(seen, s, i) ==
 RECURSIVE FE(_, _, _)
 FE(t, c, n) ==
     CASE t.op \in {"empty", "none"} -> [vis |-> <<>>, c |-> c, brk |-> FALSE]
-      [] t.op \in {"pair", "arr", "slice"} -> Loop(t.kvs, 1, c, n)
-      [] t.op \in {"btree", "hash"} -> Loop(SortKVs(t.kvs), 1, c, n)
+      [] t.op \in {"pair", "arr", "slice", "extent", "spanctxt"} -> Loop(t.kvs, 1, c, n)
+      [] t.op \in {"btree", "hash", "ctxt"} -> Loop(SortKVs(t.kvs), 1, c, n)
       [] t.op = "macro" -> Loop(MacroEnumB(t.ents), 1, c, n)
       [] t.op \in Transparent -> FE(t.t, c, n)
       [] t.op = "and" ->
@@ -208,44 +215,33 @@ DefaultGet(t, k) == First(FE(t, 0, 0).vis, k)
 RECURSIVE GetB(_, _)
 GetB(t, k) ==
     CASE t.op = "empty" -> None
-      [] t.op \in {"btree", "hash"} -> First(t.kvs, k)         \* the map's own lookup
+      [] t.op \in {"btree", "hash", "ctxt"} -> First(t.kvs, k) \* the map's own lookup
       [] t.op = "macro" -> MacroGetB(t.ents, k)
       [] t.op \in {"ref", "asmap", "erased", "dedup"} -> GetB(t.t, k)
       [] t.op = "and" -> IF GetB(t.l, k) # None THEN GetB(t.l, k) ELSE GetB(t.r, k)
-      [] OTHER -> DefaultGet(t, k)       \* pair, arr, slice, none, opt, box, arc
+      [] OTHER -> DefaultGet(t, k)       \* pair, arr, slice, none, opt, box, arc, extent, spanctxt
 
 -----------------------------------------------------------------------------
-(* exhaustive mode: every collection of TreeSet is picked once.  TLC computes initial
-   states (and checks them) on one thread, so the initial states are only Parts seeds
-   and the collections of one part are the successors of its seed: the invariants are
-   then evaluated by all workers. *)
-
-Parts == 16
-
-OpCode(t) ==
-    CASE t.op = "and" -> 1 [] t.op = "opt" -> 2 [] t.op = "ref" -> 3 [] t.op = "box" -> 4
-      [] t.op = "arc" -> 5 [] t.op = "erased" -> 6 [] t.op = "dedup" -> 7 [] t.op = "asmap" -> 8
-      [] t.op = "pair" -> 9 [] t.op = "arr" -> 10 [] t.op = "slice" -> 11 [] t.op = "btree" -> 12
-      [] t.op = "hash" -> 13 [] t.op = "macro" -> 14 [] OTHER -> 15
-
-PartRaw(t) ==
-    CASE t.op = "and" -> OpCode(t.l) * 5 + OpCode(t.r) * 3
-      [] t.op \in Unary -> OpCode(t) + OpCode(t.t) * 3
-      [] t.op = "macro" -> Len(t.ents) + (IF Len(t.ents) > 0 THEN t.ents[1].key ELSE 0)
-      [] OTHER -> OpCode(t)
-
-PartOf(t) == (PartRaw(t) % Parts) + 1
+(* exhaustive mode.  TLC computes (and checks) initial states on one thread and
+   enumerates unions of big sets quadratically, so the explored set is never built as
+   one set: the initial states are the seeds Seeds(m) of every mode m (all trees one
+   level shallower, or all macro call sites), and the successors of a seed s are s
+   itself, every unary node over s and and(s, r) for every r in Rights(m).  The
+   explored collections of mode m are therefore
+       Seeds(m) \cup unary(Seeds(m)) \cup and(Seeds(m) x Rights(m)). *)
 
 Init ==
-    /\ tree = [op |-> "empty"]
     /\ done = FALSE
     /\ stk = <<>>
-    /\ np \in 1..Parts
+    /\ np \in 1..NModes
+    /\ tree \in Seeds(np)
 
 Check ==
     /\ ~done
     /\ done' = TRUE
-    /\ \E t \in {x \in TreeSet : PartOf(x) = np} : tree' = t
+    /\ \/ tree' = tree
+       \/ \E o \in Unary : Extend(np) /\ tree' = [op |-> o, t |-> tree]
+       \/ \E r \in Rights(np) : tree' = [op |-> "and", l |-> tree, r |-> r]
     /\ UNCHANGED <<stk, np>>
 
 Spec == Init /\ [][Check]_vars
